@@ -303,14 +303,24 @@ func (g *pgen) node(n int) string {
 		}
 		return in + "{{ " + g.ident() + " := " + g.expr(1) + " }}\n"
 	case 12: // script element with Go values
-		s := in + "<script" + g.pick("", " type=\"text/javascript\"") + ">\n"
+		// every attribute kind also goes on <script> (own generator path)
+		sa := g.pick("", " type=\"text/javascript\"")
+		if g.r.Intn(2) == 0 {
+			sa = g.attrs(n, "script", g.multi())
+		}
+		s := in + "<script" + sa + ">\n"
 		s += in + "\tconst " + g.asciiIdent() + " = {{ " + g.expr(1) + " }};\n"
 		if g.r.Intn(2) == 0 {
 			s += in + "\tconsole.log(\"" + g.words() + " {{ " + g.expr(1) + " }}\", `" + g.pick(wideText...) + "{{ " + g.expr(1) + " }}`);\n"
 		}
 		return s + in + "</script>\n"
 	case 13:
-		return in + "<style>\n" + in + "\tp { color: red; }\n" + in + "</style>\n"
+		// … and on <style> (raw element path)
+		sa := g.pick("", " type=\"text/css\"")
+		if g.r.Intn(3) != 0 {
+			sa = g.attrs(n, "style", g.multi())
+		}
+		return in + "<style" + sa + ">\n" + in + "\tp { color: red; }\n" + in + "</style>\n"
 	case 14:
 		return in + g.pick("<!-- "+g.words()+" -->", "// "+g.words(), "/* "+g.words()+" */") + "\n"
 	case 15: // legacy call syntax
